@@ -132,6 +132,11 @@ pub fn check(v: &View, vd: &mut Verdict) {
                 (RegOp::TryFromRegistry, Some(OpRes::Reg(RegRes::TryGot(Some(id))))) => vd.fail("C06/registry_returns_dead/try_from_registry", format!("T died at {d}; try_from_registry at {} returned {id:?}", o.begin)),
                 (RegOp::FromRegistry, Some(OpRes::Reg(RegRes::Got(id)))) => match id {
                     Ident::Live { actor, .. } if *actor != t => {}
+                    // a fresh instance was spawned by this lookup but somebody stopped it before it could be identified
+                    Ident::Dead { .. }
+                        if v.hist.iter().any(|e| {
+                            e.stamp > o.begin && e.stamp < o.end_or_max() && matches!(&e.kind, EvKind::ActorNew { origin: Origin::Default, .. })
+                        }) => {}
                     other => vd.fail("C06/registry_returns_dead/from_registry", format!("T died at {d}; from_registry at {} returned {other:?}", o.begin)),
                 },
                 _ => {}
